@@ -1,6 +1,7 @@
 """C12 — expressions evaluate to the value of the formula they denote (qupulse/expressions/sympy.py, utils/sympy.py).
 
-Model: coq/C12/Model.v (formula language over Q, eval, subst, builders, cmp_model, broadcasting evalv).
+Specification: coq/C12/Spec.v (formula language over Q, denotation eval); model: coq/C12/Model.v (subst, builders,
+cmp_model, broadcasting evalv), ModelT.v (Python typing); check_spec: SpecCheck.v (imports Spec.v only).
 The implementation (sympy + lambdify + numpy) is *compared* with the model, it is not modelled."""
 import fractions
 import os
@@ -1482,6 +1483,110 @@ def _closed_floordiv(e):
     return False
 
 
+def _floordiv_as_sympy(e):
+    """the formula with every closed floor division of two numbers replaced by what the pinned sympy's
+    Number.__floordiv__ answers for it (round 5: the finding is accepted only when the observation IS that value)"""
+    import sympy
+    if not isinstance(e, list):
+        return e
+    if e[0] == 'b' and e[1] == 'floordiv' and not X.fv(e) and not X.fvv(e):
+        try:
+            x, y = X.py_eval(e[2], {}, {}), X.py_eval(e[3], {}, {})
+            if y != 0:
+                q = sympy.Rational(x.numerator, x.denominator) // sympy.Rational(y.numerator, y.denominator)
+                return ['c', str(int(q)), 'i']
+        except Exception:
+            pass
+    return [_floordiv_as_sympy(x) for x in e]
+
+
+def _karr_value(e, sc, vc, o):
+    """sum-reversed-limits, the observation: sympy, once the limits are numbers, DECIDES with the Karr convention
+    (sum_{lo}^{hi} = -sum_{hi+1}^{lo-1} for hi < lo - 1: Max(1, Abs(Sum(-1, (i, 6, 3)))) loses the 1 because the Sum
+    "is" 2) while the generated code sums an empty range to 0.  Set-valued evaluation: a Sum over an empty range is 0 or
+    its Karr value; Min / Max / comparison / Piecewise over an undetermined operand may select either way.  The finding
+    is accepted only for an observation that is one of these values (round 5; before: any value)."""
+    import itertools
+    CAP = 32
+
+    def app(f, *sets):
+        out = []
+        for combo in itertools.islice(itertools.product(*sets), 600):
+            try:
+                v = f(*combo)
+            except X.EvalError:
+                continue
+            if v not in out:
+                out.append(v)
+        return out[:CAP]
+
+    def ev(e, sc):
+        k = e[0]
+        if k == 'c':
+            return [F(e[1])]
+        if k == 'nan':
+            return []
+        if k == 'v':
+            return [sc[e[1]]] if e[1] in sc else []
+        one = lambda sub: X.py_eval(sub, sc, vc)
+        cst = lambda x: ['c', str(x), 'r']
+        if k == 'ite':
+            cs = ev(e[1], sc)
+            out = []
+            if any(c != 0 for c in cs):
+                out += ev(e[2], sc)
+            if any(c == 0 for c in cs):
+                out += ev(e[3], sc)
+            return out[:CAP]
+        if k == 'sum':
+            out = []
+            for lo in ev(e[2], sc)[:2]:
+                for hi in ev(e[3], sc)[:2]:
+                    if lo.denominator != 1 or hi.denominator != 1 or abs(hi - lo) > 64:
+                        continue
+                    acc = [F(0)]
+                    for kk in range(int(lo), int(hi) + 1):
+                        acc = app(lambda x, y: x + y, acc, ev(e[4], {**sc, e[1]: F(kk)}))
+                    out += acc
+                    if hi < lo - 1:
+                        acc = [F(0)]
+                        for kk in range(int(hi) + 1, int(lo)):
+                            acc = app(lambda x, y: x - y, acc, ev(e[4], {**sc, e[1]: F(kk)}))
+                        out += acc
+            return out[:CAP]
+        if k == 'u':
+            return app(lambda x: one(['u', e[1], cst(x)]), ev(e[2], sc))
+        if k == 'b':
+            xs, ys = ev(e[2], sc), ev(e[3], sc)
+            if e[1] in ('min', 'max') and (len(xs) > 1 or len(ys) > 1):
+                return (xs + ys)[:CAP]
+            if e[1] in X.CMPS and (len(xs) > 1 or len(ys) > 1):
+                return [F(0), F(1)]
+            return app(lambda x, y: one(['b', e[1], cst(x), cst(y)]), xs, ys)
+        if k == 'idx':
+            return app(lambda x: one(['idx', e[1], cst(x)]), ev(e[2], sc))
+        if k == 'ibc':
+            return app(lambda x, y: one(['ibc', cst(x), e[2], cst(y)]), ev(e[1], sc), ev(e[3], sc))
+        return []
+    try:
+        return any(not _fails({'value': v}, True, o) for v in ev(e, sc))
+    except Exception:
+        return False
+
+
+def _time_possible(e):
+    """can the exact-rational printer put a TimeType into the code of this (written, typed) formula?  It prints every
+    non-integer Rational as TimeType: a non-integer constant, or a division / negative power sympy may fold into one"""
+    for s in X.subterms(e):
+        if s[0] == 'c' and F(s[1]).denominator != 1:
+            return True
+        if s[0] == 'b' and s[1] in ('div', 'floordiv'):
+            return True
+        if s[0] == 'u' and s[1].startswith('pow:') and int(s[1][4:]) < 0:
+            return True
+    return False
+
+
 def _mixed_shape_junction(e, array_names):
     """array-and-mixed-shapes, the class: an And / Or joins an operand that depends on an array-valued variable with
     one that does not (numpy.logical_and.reduce over operands of different shape)"""
@@ -1592,8 +1697,8 @@ def _classify_call(e, kinds, scope, path, route, o, exact_required, extra_types=
             bad = not any('err' in a for a in pts)
         if not bad:
             return 'ok'
-        if 'time' in types and 'err' in o:
-            return 'timetype-ndarray'
+        if 'time' in types and o.get('err', '').startswith('nonnumeric:array'):
+            return 'timetype-ndarray'     # round 5: only the refusal by type (was: any error next to a TimeType)
         if 'err' in o and o['err'] != 'unbound' and 'ite' in kinds and \
                 any(X.eager_fails(e, dict(sc, **{x: l[j] for x, l in arr.items()}), vc) for j in range(n)):
             return 'piecewise-eager'
@@ -1612,9 +1717,12 @@ def _classify_call(e, kinds, scope, path, route, o, exact_required, extra_types=
     tol = (not exact_required) and a['inexact']
     if not _fails(a, tol, o):
         return 'ok'
-    if ('time' in types or path == 'exact') and 'ite' in kinds and \
-            (o.get('err', '') in ('other:AttributeError', 'other:ValueError', 'other:TypeError') or
-             o.get('err', '').startswith('nonnumeric:array')):
+    if ('time' in types or (path == 'exact' and _time_possible(typed_e))) and 'ite' in kinds and \
+            kinds & {'floor', 'ceil', 'floordiv'} and o.get('err', '') == 'other:AttributeError':
+        # round 5: since /repo 6f36e9a a TimeType survives numpy.select (0-d object array) and the arithmetic after it;
+        # what is left is floor / ceiling applied to that 0-d object array (_floor_to_int takes the array path and
+        # calls .astype on the int TimeType.__floor__ returned).  Before: any AttributeError / ValueError / TypeError /
+        # array refusal of a formula with a Piecewise in the exact mode or next to a TimeType
         return 'timetype-piecewise'
     if 'value' not in a:
         return None
@@ -1623,16 +1731,19 @@ def _classify_call(e, kinds, scope, path, route, o, exact_required, extra_types=
         return 'numpy-int-overflow'
     if _very_close(o, a['value']) and not exact_required and _digits15(typed_e, scope, path, symbolic):
         return 'float-15-digits'
+    if exact_required and _float_close(o, a['value']) and o.get('ty') in ('float', 'float64', 'TimeType') and \
+            _exact_mode_float(impl_e if impl_e is not None else e, scope, extra_types):
+        return 'exact-int-div'           # (round 5: asked BEFORE its companion below, which had shadowed it: the
+        #                                   witness a/b at 1, 3 was filed as int-div-through-float)
     if _very_close(o, a['value']) and path != 'symfull' and _int_div_class(typed_e, scope, path, impl_e, extra_types):
         return 'int-div-through-float'
     if 'time' in types and 'ite' in kinds and o.get('ty') in ('TimeType', 'float', 'float64') and \
             _float_close(o, a['value']):
         return 'timetype-piecewise'      # the TimeType went through numpy.select as a float: inexact result
-    if any(_closed_floordiv(p) for p in ([e] if parsed_parts is None else parsed_parts)) and 'val' in o:
-        return 'sympy-number-floordiv'      # only inside PARSED text; the operator route builds floor(a / b)
-    if exact_required and _float_close(o, a['value']) and o.get('ty') in ('float', 'float64', 'TimeType') and \
-            _exact_mode_float(impl_e if impl_e is not None else e, scope, extra_types):
-        return 'exact-int-div'
+    if any(_closed_floordiv(p) for p in ([e] if parsed_parts is None else parsed_parts)) and 'val' in o and \
+            not _fails(X.analyse(_floordiv_as_sympy(e), sc, vc), True, o):
+        return 'sympy-number-floordiv'      # only inside PARSED text; the operator route builds floor(a / b);
+        #                                     round 5: and only the value sympy's quotient leads to
     if 'err' in o and o['err'] != 'unbound' and 'ite' in kinds and X.eager_fails(e, sc, vc):
         return 'piecewise-eager'
     if (('err' in o and o['err'] != 'unbound') or 'nan' in o) and X.eager_fails(e, sc, vc, dead=True):
@@ -1640,8 +1751,8 @@ def _classify_call(e, kinds, scope, path, route, o, exact_required, extra_types=
     if o.get('err') == 'other:ValueError' and (path == 'symfull' or symbolic) and 'sum' in kinds and \
             kinds & {'min', 'max'}:
         return 'symbolic-minmax-sum'
-    if a['reversed_sum'] and ('val' in o or 'nan' in o) and (path == 'symfull' or symbolic):
-        return 'sum-reversed-limits'
+    if a['reversed_sum'] and (path == 'symfull' or symbolic) and ('nan' in o or ('val' in o and _karr_value(e, sc, vc, o))):
+        return 'sum-reversed-limits'     # round 5: a value only when it IS what the Karr convention gives
     return None
 
 
@@ -1894,22 +2005,27 @@ def shrink(case, obs, ctx):
 
 
 MANIFEST = {
-    'level_text': 'Proof (partial by nature): the formula algebra is proved for all formulas/scopes -- simultaneous '
-                  'substitution lemma (under an executable capture guard; refuted without it), partial-then-full = at '
-                  'once, operators compute the operator on values, closed-formula comparison is sound, broadcasting '
-                  'evaluation = map of scalar evaluation (C12_vector, proved in round 2), typed evaluation '
-                  '(int / TimeType / float) has the value of the denotation and, under the executable guard '
-                  'exact_guard, an exact type (refuted without it: int / int); round 3: the typed model covers both '
-                  'printers (exact / numeric mode), Piecewise = numpy.select (no exactness claim) and decimal literals as '
-                  'float inputs; round 4: a session over several objects is judged step by step (check_spec_app), the '
-                  'denotation has no process state.  That sympy-based evaluation equals the '
-                  'denotation is a correspondence statement, checked on generated formulas x scopes x all access '
-                  'paths, not proved.  sympy decides more comparisons than the model: their soundness is only tested.',
+    'level_text': 'Proof (partial by nature).  Proved for all formulas / scopes, about the Coq model of what qupulse does '
+                  'against the denotation of Spec.v: simultaneous substitution lemma (under the executable guard '
+                  'capture_free = exactly the class of finding subst-capture; refuted without it); substituting numbers '
+                  'first = evaluating at once, every split (no guard); broadcasting evaluation => pointwise value '
+                  '(C12_vector, converse not claimed); the Python-typed model of the generated code has the value of the '
+                  'denotation in both modes and, under the static guard exact_guard (wider than finding exact-int-div: it '
+                  'also excludes every Piecewise and int**negative), an exact type (refuted without it); closed-formula '
+                  'comparison decider is sound; the operator builders are near-definitional (content only for //).  '
+                  'TESTED ONLY, not proved: that sympy / lambdify / numpy evaluation equals the denotation (clauses scalar, '
+                  'vector, array, exact mode: correspondence on generated formulas x scopes x access paths), the '
+                  'serialisation round trip (no printer / parser model), soundness of the comparisons sympy decides beyond '
+                  'closed formulas.  Not covered: "unknown otherwise" for comparisons (sympy decides more than the model), '
+                  'chains of several substitution steps.',
     'level_note': 'Trusted: Coq kernel, harness printers/generators, the sympy->AST reader that feeds the typed unit '
-                  'cases. sympy/numpy/gmpy2 are the implementation under comparison. Transcendental functions only '
-                  'under tolerance (never deciding). The result TYPE is compared only where the typed model computes int or '
-                  'TimeType (its float class claims nothing). Reserved names and Len/Broadcast are judged by a Python '
-                  'specification (py_spec), not in Coq.',
+                  'cases. sympy/numpy/gmpy2 are the implementation under comparison. check_spec is defined in SpecCheck.v, '
+                  'which imports the specification Spec.v only (round 5). Transcendental functions only under tolerance '
+                  '(never deciding). The result TYPE is compared only where the typed model computes int or TimeType (its '
+                  'float class claims nothing). Reserved names and Len/Broadcast are judged by a Python specification '
+                  '(py_spec), not in Coq. Known findings numpy-int-overflow, int-div-through-float, float-15-digits, '
+                  'piecewise-eager, dead-part-evaluated, lambda-name-capture are class-wide predicates: a second defect '
+                  'confined to one of these input classes would be filed under the finding.',
     'technique': 'Coq proofs over a Q-denotation of the formula language (+ a typed refinement for the exact-rational '
                  'mode) + exact correspondence check against sympy/numpy',
     'design_ref': 'DESIGN.md §5 C12, §4.2',
